@@ -509,6 +509,42 @@ def r17_19(run, model):
     run.floor("EDynCall constructions in mono / lift / anf", n, 3)
 
 
+def r17_21(run, model):
+    run.rule("R17.21", "a statically resolved trait call names the impl of the receiver's own type: wherever the match compiler builds an impl "
+                       "function name (trait_impl_fn_name), the type argument derives from the type of the receiver expression (`..get_ty()`), "
+                       "never from the table of known impls - which impls a package can see is not which impl a value has (a library's "
+                       "`f[T: Tr]` would be bound to the library's only implementor before a dependent package adds its own)")
+    from rules import c07 as _c07
+    CM = "crates/compiler/src/compile_match.rs"
+    n = 0
+    for f0 in model.fns(CM):
+        if f0.body is None:
+            continue
+        # call forms live in the functions that compile an expression; where an impl block is compiled the type is the block's own
+        if not any((not p_["self"]) and re.search(r"(^|[&:<\s])Expr\b", p_["ty"] or "") for p_ in f0.params()):
+            continue
+        f = model.inlined_fn(f0)
+        k = 0
+        for c in S.walk(f.body):
+            if c["k"] != "Call" or S.callee_name(c) != "trait_impl_fn_name" or len(c["args"]) < 2 or c.get("inlined_call"):
+                continue
+            key = tuple(getattr(c["sp"], "orig", None) or c["sp"])
+            n += 1
+            k += 1
+            a = c["args"][1]
+            chain = [S.norm_ws(run.facts.text(CM, a["sp"]))]
+            for i in S.idents(a):
+                chain += _c07._origin_chain(run, f, CM, c, i)
+            src = " <- ".join(chain)
+            from_recv = "get_ty()" in src
+            from_table = re.search(r"trait_impls|trait_env|impl_table|\.impls\b", src) is not None
+            run.ob("R17.21", f"{f0.name}|impl name #{k} is built from the receiver's type", from_recv and not from_table, site(CM, c["sp"]),
+                   f"type argument: {src[:140]}",
+                   witness="package Codec: trait Enc, impl Enc for int32, fn frame[T: Enc](x: T); package Main adds impl Enc for Token and calls "
+                           "frame(tok): frame__T_Token calls the int32 impl with a Token")
+    run.floor("impl function names built by the match compiler", n, 2)
+
+
 def run(run, model):
     run.try_rule(r17_1, model)
     run.try_rule(r17_2, model)
@@ -536,7 +572,12 @@ def run(run, model):
     run.rule("R17.6", "a coercion to dyn is recorded once per expression: call arguments are type-checked once (shared with C03 R03.11); a second "
                       "pass pushes the ToDyn coercion again and the value is wrapped twice")
     run.try_rule(c03.r03_11, model)
+    from rules import c19 as _c19
+    run.rule("R17.20", "the impl function every call form names is the impl of that type: trait_impl_fn_name renders trait and implementing type in "
+                       "full, so `Shapes::Point` and Main's `Point` get different functions (shared with C19 R19.12)")
+    run.try_rule(_c19.r19_12, model)
     run.try_rule(r17_15, model)
+    run.try_rule(r17_21, model)
     run.try_rule(r17_16, model)
     run.try_rule(r17_17, model)
     run.try_rule(r17_18, model)
